@@ -18,6 +18,10 @@ pub struct VMThread {
 
     /// The amount of gas used in executing this thread.
     gas_usage: usize,
+
+    /// An identifier for this thread in recorded verification traces.
+    #[cfg(sle_verif)]
+    pub verif_id: u64,
 }
 
 impl VMThread {
@@ -30,6 +34,8 @@ impl VMThread {
             state,
             thread,
             gas_usage,
+            #[cfg(sle_verif)]
+            verif_id: crate::verif::fresh_thread_id(),
         }
     }
 
@@ -77,6 +83,8 @@ impl VMThread {
             state,
             thread,
             gas_usage,
+            #[cfg(sle_verif)]
+            verif_id: crate::verif::fresh_thread_id(),
         }
     }
 
